@@ -75,6 +75,39 @@ def run(prog, ctx):
                 decided += 1
                 res.violate("C11.L", "C11.L|%s|%s" % (fam, ",".join("%s=%s" % kv for kv in sorted(label.items()))),
                             "%s: what serialize() writes in state %s is not what deserialize() reads: %s; written: %s" % (fam, label, detail, [k for k, v in stream]), rf.id)
+    # ---------------- C11.M a writer that takes `&mut self` (t-digest folds its buffer first) must finish changing the sketch
+    # before it emits the first byte: a value written earlier would otherwise describe a state the sketch no longer has
+    n_m = 0
+    for fam in sorted(specfmt.FAMILIES):
+        if ctx.get("families") and fam not in ctx["families"]:
+            continue
+        wf = C.pub_fn(prog, *specfmt.FAMILIES[fam]["writer"])
+        if wf is None or wf.argc < 1 or not wf.local_ty(1).startswith("&mut"):
+            continue
+        owner = wf.owner
+        sw = sym.Sym(prog, wf, ifconv=False)
+        writes = [b for b, site in wf.calls() if "::write_" in (site.get("callee") or "") or (site.get("callee") or "").endswith("SketchBytes::write")]
+        memo = {}
+
+        def mutates(tgt):
+            if tgt not in memo:
+                memo[tgt] = any(True for g in C.reach_from(prog, [tgt]) if g.owner == owner for _ in sym.field_stores(prog, adt=owner, fns=[g]) if _[2] == "assign")
+            return memo[tgt]
+        for b, site in wf.calls():
+            tgt = site.get("callee")
+            if not tgt or tgt not in prog.fns or prog.fns[tgt].owner != owner:
+                continue
+            g = prog.fns[tgt]
+            if g.argc < 1 or not g.local_ty(1).startswith("&mut") or not mutates(tgt):
+                continue
+            n_m += 1
+            res.obligations += 1
+            early = [w for w in writes if w != b and sw._reaches(w, b)]
+            if early:
+                res.violate("C11.M", "C11.M|%s|%s" % (fam, g.item_name), "%s calls %s, which changes the sketch, after it has already written part of the image; fields emitted earlier (flags, counts) can describe the state before the change" % (wf.id, g.id), wf.id, site.get("span"))
+            else:
+                res.discharged += 1
+    res.rule("C11.M", n_m, 1, "state-changing calls inside `&mut self` writers")
     if "undecided_reasons" in res.extra:
         res.extra["undecided_reasons"] = sorted(res.extra["undecided_reasons"])[:12]
     res.rule("C11.L", total, 50, "abstract states x families round-tripped through the writer and reader models")
